@@ -23,6 +23,10 @@ class Unparsed(Exception):
     pass
 
 
+class NoReturn(Unparsed):
+    pass
+
+
 @dataclass(frozen=True)
 class Wire:
     name: str
@@ -78,6 +82,18 @@ class GateV:
     params: list
     paulis: list = field(default_factory=list)
     same_as_input: bool = False  # `gate` itself returned unchanged
+    matrix: object = None
+
+
+@dataclass(frozen=True)
+class FactoryRef:
+    name: str
+
+
+@dataclass(frozen=True)
+class MatSym:
+    """the unitary_matrix of the symbolic input gate with a sequence of operations applied"""
+    ops: tuple = ()
 
 
 @dataclass
@@ -105,6 +121,7 @@ FACTORY["SWAP"] = ("t", "t")
 FACTORY["TOFFOLI"] = ("c", "c", "t")
 FACTORY["Pauli"] = ("T", "I")
 FACTORY["PauliRotation"] = ("T", "I", "p")
+FACTORY["UnitaryMatrix"] = ("T", "M")
 
 ARITY = {k: (0, 1, 0) for k in ONE_Q}  # controls, targets, params
 ARITY.update({"RX": (0, 1, 1), "RY": (0, 1, 1), "RZ": (0, 1, 1), "U1": (0, 1, 1), "U2": (0, 1, 2), "U3": (0, 1, 3),
@@ -133,6 +150,7 @@ class Evaluator:
             self.factories.update(extra_factories)
         self.consts = consts or {}
         self.used_mod_2pi = False
+        self.predicates = {}
 
     # ---- expressions ----------------------------------------------------
     def ev(self, e):
@@ -155,7 +173,13 @@ class Evaluator:
                 return Aff({}, Fraction(1))
             if isinstance(e.value, ast.Name) and e.value.id == "gate_names":
                 return e.attr
+            if isinstance(e.value, ast.Name) and e.value.id in self.gate_modules and e.attr in self.factories:
+                return FactoryRef(e.attr)
             base = self.ev(e.value)
+            if isinstance(base, MatSym):
+                if e.attr == "T":
+                    return MatSym(base.ops + ("T",))
+                raise Unparsed(f"matrix attribute {e.attr}")
             if isinstance(base, (SymGate, GateV)):
                 if e.attr == "target_indices":
                     return tuple(base.targets)
@@ -170,7 +194,7 @@ class Evaluator:
                 if e.attr in ("classical_indices",):
                     return ()
                 if e.attr == "unitary_matrix":
-                    return ()
+                    return MatSym()
             raise Unparsed(f"attribute {ast.unparse(e)}")
         if isinstance(e, ast.Subscript):
             base = self.ev(e.value)
@@ -180,6 +204,11 @@ class Evaluator:
                     return base[idx.value]
                 except IndexError:
                     raise Unparsed("index out of range")
+            if isinstance(base, dict):
+                k = self.ev(idx)
+                if isinstance(k, (str, int)) and k in base:
+                    return base[k]
+                raise Unparsed(f"key {k!r} not in table")
             raise Unparsed(f"subscript {ast.unparse(e)}")
         if isinstance(e, ast.UnaryOp):
             v = self.ev(e.operand)
@@ -187,6 +216,8 @@ class Evaluator:
                 return -v
             if isinstance(e.op, ast.UAdd) and isinstance(v, Aff):
                 return v
+            if isinstance(e.op, ast.Not) and isinstance(v, bool):
+                return not v
             raise Unparsed(f"unary {ast.unparse(e)}")
         if isinstance(e, ast.BinOp):
             a, b = self.ev(e.left), self.ev(e.right)
@@ -207,8 +238,45 @@ class Evaluator:
                 return list(a) + list(b)
             raise Unparsed(f"binop {ast.unparse(e)}")
         if isinstance(e, (ast.List, ast.Tuple)):
-            vals = [self.ev(x) for x in e.elts]
+            vals = []
+            for x in e.elts:
+                if isinstance(x, ast.Starred):
+                    vals.extend(self.ev(x.value))
+                else:
+                    vals.append(self.ev(x))
             return vals if isinstance(e, ast.List) else tuple(vals)
+        if isinstance(e, ast.Dict):
+            return {self.ev(k): self.ev(v) for k, v in zip(e.keys, e.values)}
+        if isinstance(e, ast.Set):
+            return {self.ev(x) for x in e.elts}
+        if isinstance(e, ast.Compare) and len(e.ops) == 1:
+            a, b = self.ev(e.left), self.ev(e.comparators[0])
+            op = e.ops[0]
+            conc = lambda v: isinstance(v, (str, int, bool, tuple, list, dict, set, frozenset)) or v is None
+            if isinstance(op, (ast.In, ast.NotIn)) and isinstance(a, str) and isinstance(b, (dict, set, frozenset, list, tuple)):
+                r = a in b
+                return r if isinstance(op, ast.In) else not r
+            if isinstance(op, (ast.Eq, ast.NotEq)) and conc(a) and conc(b) and not isinstance(a, (Aff,)) and not isinstance(b, (Aff,)):
+                r = a == b
+                return r if isinstance(op, ast.Eq) else not r
+            raise Unparsed(f"comparison {ast.unparse(e)}")
+        if isinstance(e, ast.BoolOp):
+            vals = [self.ev(v) for v in e.values]
+            if all(isinstance(v, bool) for v in vals):
+                return all(vals) if isinstance(e.op, ast.And) else any(vals)
+            raise Unparsed(f"symbolic boolean {ast.unparse(e)}")
+        if isinstance(e, (ast.GeneratorExp, ast.ListComp)) and len(e.generators) == 1 and not e.generators[0].ifs:
+            gen = e.generators[0]
+            it = self.ev(gen.iter)
+            if not isinstance(it, (list, tuple)):
+                raise Unparsed("comprehension over a non-sequence")
+            out = []
+            saved = dict(self.env)
+            for v in it:
+                self.assign(gen.target, v)
+                out.append(self.ev(e.elt))
+            self.env = saved
+            return out
         if isinstance(e, ast.Call):
             return self.call(e)
         raise Unparsed(f"expression {type(e).__name__}: {ast.unparse(e)}")
@@ -220,9 +288,34 @@ class Evaluator:
             name = f.attr
         elif isinstance(f, ast.Name) and (f.id in self.factories or f.id == "QuantumGate"):
             name = f.id
+        if name is None and not (isinstance(f, ast.Name) and f.id in ("tuple", "list", "float", "len")):
+            # numpy matrix plumbing of the UnitaryMatrix branch
+            if isinstance(f, ast.Attribute) and isinstance(f.value, ast.Name) and f.value.id in ("np", "numpy") and f.attr in ("array", "asarray") and e.args:
+                v = self.ev(e.args[0])
+                if isinstance(v, MatSym):
+                    return v
+                raise Unparsed("np.array of a non-matrix")
+            if isinstance(f, ast.Attribute) and f.attr in ("conj", "conjugate", "tolist", "copy") and not e.args:
+                v = self.ev(f.value)
+                if isinstance(v, MatSym):
+                    return MatSym(v.ops + ("conj",)) if f.attr in ("conj", "conjugate") else v
+                raise Unparsed(f"call {ast.unparse(e)}")
+            if isinstance(f, ast.Name) and f.id in self.predicates:
+                args = [self.ev(a) for a in e.args]
+                return self.predicates[f.id](*args)
+            try:
+                fv = self.ev(f)
+            except Unparsed:
+                fv = None
+            if isinstance(fv, FactoryRef):
+                name = fv.name
         if name is None:
             if isinstance(f, ast.Name) and f.id in ("tuple", "list") and len(e.args) == 1:
                 return self.ev(e.args[0])
+            if isinstance(f, ast.Name) and f.id == "len" and len(e.args) == 1:
+                v = self.ev(e.args[0])
+                if isinstance(v, (list, tuple)):
+                    return Aff.const(len(v))
             if isinstance(f, ast.Name) and f.id == "float" and len(e.args) == 1:
                 return self.ev(e.args[0])
             raise Unparsed(f"call {ast.unparse(e)}")
@@ -242,7 +335,12 @@ class Evaluator:
         sig = self.factories[name]
         if e.keywords:
             raise Unparsed("keyword arguments to gate factory")
-        args = [self.ev(a) for a in e.args]
+        args = []
+        for a in e.args:
+            if isinstance(a, ast.Starred):
+                args.extend(self.ev(a.value))
+            else:
+                args.append(self.ev(a))
         if len(args) != len(sig):
             raise Unparsed(f"{name}: {len(args)} args for signature {sig}")
         g = GateV(name, [], [], [])
@@ -263,6 +361,10 @@ class Evaluator:
                 g.targets.extend(a)
             elif s == "I":
                 g.paulis.extend(a)
+            elif s == "M":
+                if not isinstance(a, MatSym):
+                    raise Unparsed(f"{name}: matrix argument is not derived from the input matrix")
+                g.matrix = a
         return g
 
     # ---- statements -----------------------------------------------------
@@ -292,8 +394,16 @@ class Evaluator:
                 continue
             if isinstance(st, ast.Return):
                 return self.ev(st.value)
+            if isinstance(st, ast.If):
+                t = self.ev(st.test)
+                if not isinstance(t, bool):
+                    raise Unparsed(f"symbolic condition {ast.unparse(st.test)}")
+                try:
+                    return self.run(st.body if t else st.orelse)
+                except NoReturn:
+                    continue
             raise Unparsed(f"statement {type(st).__name__}")
-        raise Unparsed("no return")
+        raise NoReturn("no return")
 
 
 def find_classes(tree: ast.Module):
